@@ -656,11 +656,12 @@ func checkC19Big(c c19BigCase) verdict {
 	labels := []string{"ep=" + c.Ep, "field=" + c.Field}
 	path := postEndpoints[c.Ep]
 	t0 := time.Now()
-	status, _, err := rawHTTP(sv.addr, "POST", path, body, 5*time.Second)
+	status, rb0, err := rawHTTP(sv.addr, "POST", path, body, 5*time.Second)
 	d := time.Since(t0)
 	if err != nil || d > 3*time.Second {
 		t1 := time.Now()
-		_, _, err2 := rawHTTP(sv.addr, "POST", path, body, 15*time.Second)
+		var err2 error
+		status, rb0, err2 = rawHTTP(sv.addr, "POST", path, body, 15*time.Second)
 		d2 := time.Since(t1)
 		if err2 != nil || d2 > 3*time.Second {
 			hang("C19", "big-strings", c, recorders["C19/big-strings"], fmt.Sprintf("POST %s with a %d-byte %s made of %q: first attempt %v (%v), alone again %v (%v): the normal cost of a body of this size is a few ms, so the work grows faster than linearly with the string (or the request is never answered)", path, c.Size, c.Field, c.Unit, d.Round(time.Millisecond), err, d2.Round(time.Millisecond), err2))
@@ -671,6 +672,9 @@ func checkC19Big(c c19BigCase) verdict {
 		return bad(true, labels, "POST %s with a %d-byte %s: status %d", path, c.Size, c.Field, status)
 	}
 	labels = append(labels, fmt.Sprintf("status=%dxx", status/100))
+	if status < 300 && len(rb0) < 256<<10 && !successPayload(c.Ep, rb0) { // a longer answer (a URL carrying the big string) is cut short by the client
+		return bad(true, labels, "POST %s with a %d-byte %s answered %d %s; the status claims success but the answer is not the endpoint's result", path, c.Size, c.Field, status, trunc(string(rb0), 160))
+	}
 	// the service keeps serving
 	if st, rb, perr := rawHTTP(sv.addr, "POST", "/hotp/generate", []byte(`{"secret":"GEZDGNBVGY3TQOJQGEZDGNBVGY3TQOJQ","counter":1,"digits":"6","algorithm":"SHA1"}`), 5*time.Second); perr != nil || st != 200 || !strings.Contains(string(rb), `"287082"`) {
 		return bad(true, labels, "probe after the big request: status %d body %s err %v (want 200 with the RFC 4226 value 287082)", st, trunc(string(rb), 200), perr)
@@ -1102,6 +1106,13 @@ func checkC19Param(c c19ParamCase) verdict {
 	}
 	if len(rb) >= c19MaxAnswer {
 		return bad(true, labels, "%s %s with %s parameter %s=%s is answered with %d bytes or more (status %d): the size of the answer, and the work behind it, is chosen by a number in the request", method, trunc(path, 80), c.Where, c.Name, val, len(rb), status)
+	}
+	if method == "POST" && status >= 200 && status < 300 {
+		for ep, p := range postEndpoints {
+			if p == c.Path && !successPayload(ep, rb) {
+				return bad(true, labels, "POST %s with the extra %s field %s=%s answered %d %s; the status claims success but the answer is not the endpoint's result", c.Path, c.Where, c.Name, val, status, trunc(string(rb), 160))
+			}
+		}
 	}
 	if !sv.alive() {
 		return bad(true, labels, "the server process died: %s", tailStr(sv.stderr.String(), 800))
